@@ -119,6 +119,16 @@ func checkPair(b *gen.Binding, v *ref.Vals, newSeq uint32, c any) *vk.Violation 
 				viol = vk.Violf(id+"/response-encode", c, "%s: generated response does not encode: %v", id, err)
 				return
 			}
+			// a response generated from a request whose header happens to name another command (a relay that
+			// re-uses a header, a hand-built PDU) is still library-obtained: what it reports must be what it encodes
+			vf := *v
+			vf.Cmd = v.Cmd ^ 0x3
+			if fr := gen.AsPDU(b.Fill(&vf)).GenEmptyResponse(); fr != nil {
+				if fimg, ferr := fr.IEncode(); ferr == nil && binary.BigEndian.Uint32(fimg[4:8]) != fr.GetCommand().ToUint32() {
+					viol = vk.Violf(id+"/response-command-vs-header-foreign-request-header", c, "%s with header command %#x: the generated response reports command %#x but its encoded header says %#x", id, vf.Cmd, fr.GetCommand().ToUint32(), binary.BigEndian.Uint32(fimg[4:8]))
+					return
+				}
+			}
 			if got := binary.BigEndian.Uint32(rimg[4:8]); got != resp.GetCommand().ToUint32() {
 				viol = vk.Violf(id+"/response-command-vs-header", c, "%s: generated response reports command %#x but its encoded header says %#x", id, resp.GetCommand().ToUint32(), got)
 				return
@@ -150,7 +160,11 @@ func checkPair(b *gen.Binding, v *ref.Vals, newSeq uint32, c any) *vk.Violation 
 				viol = vk.Violf(id+"/dispatch-unsupported", c, "%s: the package encodes this PDU (command %#x) but its dispatcher answers 'unsupported'", id, v.Cmd)
 				return
 			}
-			return // decode errors on well-formed images are C01's business
+			// the type's own decoder accepts this image: the dispatcher has no reason to refuse it
+			if own := b.New(); own.IDecode(img) == nil {
+				viol = vk.Violf(id+"/dispatch-refuses-decodable-image", c, "%s: the dispatcher refuses an image of %d octets that the package produced and %s.IDecode accepts: %v", id, len(img), id, derr)
+			}
+			return // otherwise: decode errors on well-formed images are C01's business
 		}
 		if typeName(d) != typeName(p) {
 			viol = vk.Violf(id+"/dispatch-type", c, "%s: dispatcher returned %s", id, typeName(d))
@@ -261,7 +275,9 @@ func TestPairingPerType(t *testing.T) {
 	for _, b := range gen.PDUs() {
 		b := b
 		t.Run(b.Spec.ID(), rapid.MakeCheck(func(t *rapid.T) {
-			v := gen.DrawVals(t, b, gen.Opts{NoTails: true})
+			// optional parameters included (one at most - pairing must not depend on them), occasionally a large one:
+			// the dispatcher has to map images of any legal size back to their type
+			v := gen.DrawVals(t, b, gen.Opts{MaxTriplets: 1, BigTails: rapid.IntRange(0, 7).Draw(t, "big") == 0})
 			newSeq := uint32(gen.UintW(32).Draw(t, "newseq"))
 			c := PairCase{PDU: gen.PCase{Vals: ref.ToJ(b.Spec, v)}, NewSeq: newSeq}
 			rec.Eval()
